@@ -208,6 +208,8 @@ def run(db: DB, rep: Report) -> None:
                         "exposing their interior at the same depth"]
 
     # ---- A1 --------------------------------------------------------------------
+    rep.rule("A2", "a component's binding lists are private per Einsum", 1)
+    _check_per_einsum_copy(db, rep)
     rep.rule("A1", "no in-place mutation of a value that may be owned by a parsed input object "
              "(one instance per function with mutation sites)", 80)
     a = AliasDepth(db)
@@ -333,14 +335,38 @@ def run(db: DB, rep: Report) -> None:
               "shared by several Einsums" % [g.short for g, _ in sites])
 
 
+def _check_per_einsum_copy(db: DB, rep: Report) -> None:
+    """A2: the bindings a component is constructed with are copied per Einsum.  A deep copy of
+    the whole {einsum: list} dictionary keeps two Einsums that share one list (a YAML alias)
+    on one list, and the components extend these lists in place."""
+    bc = db.func("teaal.ir.hardware.Hardware.__build_component")
+    ctor = [n for n in walk_no_nested(bc.node) if isinstance(n, ast.Call) and isinstance(n.func, ast.Name)
+            and len(n.args) == 4]
+    if len(ctor) != 1:
+        rep.undecided("A2", db.loc(bc.node), bc.short, "the component constructor call was not found")
+        return
+    v = paths.resolve_flow(ctor[0].args[3], ctor[0], bc.node, depth=2)
+    per_key = isinstance(v, ast.DictComp) and isinstance(v.value, ast.Call) and \
+        norm(v.value.func) in ("deepcopy", "copy.deepcopy")
+    whole = isinstance(v, ast.Call) and norm(v.func) in ("deepcopy", "copy.deepcopy")
+    rep.check("A2", per_key, db.loc(ctor[0]), bc.short, "binding-copy",
+              "the component's bindings are deep-copied separately for every Einsum",
+              "Hardware.__build_component hands the component %s: binding lists that two Einsums share "
+              "(a YAML anchor/alias) stay one list inside a single deep copy, and the in-place expansion of "
+              "eager bindings for one Einsum shows up in the other - equal specifications compile to "
+              "different programs" % norm(v)[:70], decided=per_key or whole)
+
+
 def mutants(db: DB):
     from sa.selftest import M
     ten, hw, prog, part = "teaal/ir/tensor.py", "teaal/ir/hardware.py", "teaal/ir/program.py", "teaal/ir/partitioning.py"
     return [
-        M("revert F3 fix", hw, "binding = deepcopy(self.bindings.get_component(name))",
-          "binding = self.bindings.get_component(name)", "A1"),
-        M("shallow copy instead of deep copy", hw, "binding = deepcopy(self.bindings.get_component(name))",
-          "binding = self.bindings.get_component(name).copy()", "A1"),
+        M("revert F3 fix", hw, "        binding = {einsum: deepcopy(einsum_bindings) for einsum, einsum_bindings\n                   in self.bindings.get_component(name).items()}",
+          "        binding = self.bindings.get_component(name)", "A1"),
+        M("shallow copy instead of deep copy", hw, "        binding = {einsum: deepcopy(einsum_bindings) for einsum, einsum_bindings\n                   in self.bindings.get_component(name).items()}",
+          "        binding = self.bindings.get_component(name).copy()", "A1"),
+        M("revert F14 fix (one deep copy of the whole dictionary)", hw, "        binding = {einsum: deepcopy(einsum_bindings) for einsum, einsum_bindings\n                   in self.bindings.get_component(name).items()}",
+          "        binding = deepcopy(self.bindings.get_component(name))", "A2"),
         M("Tensor keeps the declaration list", ten, "        self.ranks = ranks.copy()", "        self.ranks = ranks", "A1"),
         M("declared ranks sorted in place", prog, "        for ten_name in declaration:\n            tensor = Tensor(ten_name, declaration[ten_name])",
           "        for ten_name in declaration:\n            declaration[ten_name].sort()\n            tensor = Tensor(ten_name, declaration[ten_name])",
